@@ -4,6 +4,8 @@
 # and runs the given checks against that worktree (VERIF_REPO), never touching /repo itself.
 # expects /tmp/seed/out/<ID>/<variant>/{patch.diff,demo_test.go,notes.md} or /verif/seeded/<ID>-<variant>/
 export GOFLAGS=-mod=mod GOPROXY=off GOSUMDB=off GOTOOLCHAIN=local
+# several validations may share the machine: the tier budget must not cut a run short
+export VERIF_BUDGET_S=${VERIF_BUDGET_S:-3000}
 ID=$1; V=$2; shift 2; CHECKS=${@:-$ID}
 D=/verif/seeded/$ID-$V
 mkdir -p $D
